@@ -88,6 +88,7 @@ def main():
                             owners.add(pid)
         if not owners:
             owners = set(contract.MODULE_OWNER.get(short, []))
+        owners |= set(contract.EXTRA_OWNERS.get(key, []))
         if not owners:
             continue
         defaults = contract.defaults_of(fi)
@@ -98,11 +99,13 @@ def main():
                 continue
             refusals.append(r)
         kwo = contract.kw_options_of(fi)
-        if not defaults and not refusals and not kwo:
+        reb = contract.rebinds_of(fi)
+        decs = contract.decorators_of(fi)
+        if not defaults and not refusals and not kwo and not reb and not decs and short not in ("io.json", "io.util", "io.version"):
             continue
         if key in functions:       # duplicate key (two overloads with equal annotation): keep the first, skip
             continue
-        functions[key] = dict(owners=sorted(owners), defaults=defaults, refusals=refusals, kw_options=kwo)
+        functions[key] = dict(owners=sorted(owners), defaults=defaults, refusals=refusals, kw_options=kwo, rebinds=reb, decorators=decs)
     head = subprocess.run(["git", "-C", "/repo", "rev-parse", "--short", "HEAD"], capture_output=True, text=True).stdout.strip()
     # every function some property's rules consulted on this tree (used to tell a NEW override from a known, analysed one)
     import importlib
